@@ -2,6 +2,9 @@ package an
 
 import (
 	"fmt"
+	"go/token"
+	"go/types"
+	"math"
 	"sort"
 	"strings"
 
@@ -134,15 +137,87 @@ func (a *Analysis) entryContexts(fn *ssa.Function) []*Ctx {
 				takesLang = true
 			}
 		}
+		var base []*Ctx
 		if takesLang {
 			for _, lc := range lcs {
 				lc := lc
-				out = append(out, &Ctx{Name: "lang=" + lc.Name, Lang: &lc.V})
+				base = append(base, &Ctx{Name: "lang=" + lc.Name, Lang: &lc.V})
 			}
 		} else {
-			out = append(out, &Ctx{Name: "any"})
+			base = append(base, &Ctx{Name: "any"})
+		}
+		// a function with one []byte parameter that compares its length with constants (a size
+		// gate of its own, `len(b) < 16 || len(b) > 32 || len(b)%4 != 0`): one context per length
+		// between the smallest and the largest of those constants and one for each side of them —
+		// a partition of all lengths, on which the comparisons are decided
+		cuts := lenCuts(fn)
+		if len(cuts) == 0 || cuts[len(cuts)-1]-cuts[0] > 64 {
+			out = append(out, base...)
+			break
+		}
+		lo, hi := cuts[0], cuts[len(cuts)-1]
+		for _, b := range base {
+			pre := ""
+			if b.Name != "any" {
+				pre = b.Name + ","
+			}
+			if lo > 0 {
+				out = append(out, &Ctx{Name: fmt.Sprintf("%slen∈[0..%d]", pre, lo-1), Lang: b.Lang, SizeKind: "L", SizeRange: &[2]int64{0, lo - 1}})
+			}
+			for k := lo; k <= hi; k++ {
+				k := k
+				out = append(out, &Ctx{Name: fmt.Sprintf("%slen=%d", pre, k), Lang: b.Lang, EntLen: &k})
+			}
+			out = append(out, &Ctx{Name: fmt.Sprintf("%slen∈[%d..]", pre, hi+1), Lang: b.Lang, SizeKind: "L", SizeRange: &[2]int64{hi + 1, math.MaxInt32}})
 		}
 	}
+	return out
+}
+
+// lenCuts returns, sorted, the non-negative constants the length of fn's only []byte
+// parameter is compared with in fn itself (nil if there is no such parameter or comparison).
+func lenCuts(fn *ssa.Function) []int64 {
+	var bp *ssa.Parameter
+	for _, p := range fn.Params {
+		if sl, ok := p.Type().Underlying().(*types.Slice); ok {
+			if b, ok := sl.Elem().Underlying().(*types.Basic); ok && b.Kind() == types.Uint8 {
+				if bp != nil {
+					return nil
+				}
+				bp = p
+			}
+		}
+	}
+	if bp == nil {
+		return nil
+	}
+	seen := map[int64]bool{}
+	for _, b := range fn.Blocks {
+		for _, in := range b.Instrs {
+			bo, ok := in.(*ssa.BinOp)
+			if !ok {
+				continue
+			}
+			switch bo.Op {
+			case token.LSS, token.LEQ, token.GTR, token.GEQ, token.EQL, token.NEQ:
+			default:
+				continue
+			}
+			for _, pr := range [][2]ssa.Value{{bo.X, bo.Y}, {bo.Y, bo.X}} {
+				if lenOperand(pr[0]) != ssa.Value(bp) {
+					continue
+				}
+				if c, ok := intConst(pr[1]); ok && c >= 0 && c < math.MaxInt32 {
+					seen[c] = true
+				}
+			}
+		}
+	}
+	var out []int64
+	for c := range seen {
+		out = append(out, c)
+	}
+	sort.Slice(out, func(i, j int) bool { return out[i] < out[j] })
 	return out
 }
 
